@@ -666,3 +666,106 @@ package ristretto
 //@   loop 2 invariant #ok applierOK(c)
 //@   loop 2 invariant [C13] #victims-pending forall k uint64 :: smHas(cacheSM(c), k) ==> gcHas(c.cachePolicy.evict.keyCosts, k) || exists j int :: rangeindex < j && j < len(victims) && victims[j].Key == k
 //@   loop 2 invariant #victims forall j int :: 0 <= j && j < len(victims) ==> victims[j] != nil
+
+// ---------------------------------------------------------------- Clear, Close and the callback wrappers (C04, C15)
+
+// onExit / onEvict / onReject wrappers built by NewCache: the user's callback (if any)
+// is called once, and onEvict/onReject are always followed by onExit of the item's value.
+//@ func NewCache$1(val V)
+//@   noframe
+//@   requires config != nil
+//@   ensures [C04] #user config.OnExit != nil ==> gcCalls(config.OnExit) == old(gcCalls(config.OnExit))+1 && gcCalledWith(config.OnExit, val) == old(gcCalledWith(config.OnExit, val))+1
+//@ func NewCache$2(item *Item[V])
+//@   noframe
+//@   requires item != nil && cache != nil && config != nil
+//@   ensures [C04] #user config.OnEvict != nil ==> gcCalls(config.OnEvict) == old(gcCalls(config.OnEvict))+1
+//@   ensures [C04] #then-exit gcCalls(cache.onExit) == old(gcCalls(cache.onExit))+1 && gcCalledWith(cache.onExit, item.Value) == old(gcCalledWith(cache.onExit, item.Value))+1
+//@ func NewCache$3(item *Item[V])
+//@   noframe
+//@   requires item != nil && cache != nil && config != nil
+//@   ensures [C04] #user config.OnReject != nil ==> gcCalls(config.OnReject) == old(gcCalls(config.OnReject))+1
+//@   ensures [C04] #then-exit gcCalls(cache.onExit) == old(gcCalls(cache.onExit))+1 && gcCalledWith(cache.onExit, item.Value) == old(gcCalledWith(cache.onExit, item.Value))+1
+
+//@ func (m *lockedMap) Clear(onEvict func(item *Item[V]))
+//@   atomic
+//@   requires m != nil
+//@   modifies m.data, gcCallbacks(onEvict)
+//@   loop 1 modifies gcCallbacks(onEvict)
+//@   ensures [C13,C15] #empty m.data != nil && forall k uint64 :: !gcHas(m.data, k)
+
+//@ func (sm *shardedMap) Clear(onEvict func(item *Item[V]))
+//@   reveal shardOf
+//@   noframe
+//@   requires wfSharded(sm) && bucketDurationSecs > 0 && sm.expiryMap != nil
+//@   modifies allmaps(sm.shards[0].data), sm.expiryMap.buckets, sm.expiryMap.lastCleanedBucketNum, gcCallbacks(onEvict)
+//@   loop 1 modifies allmaps(sm.shards[0].data), gcCallbacks(onEvict)
+//@   loop 1 invariant #done 0 <= i && i <= 256 && forall j int :: 0 <= j && uint64(j) < i ==> forall k uint64 :: !gcHas(sm.shards[j].data, k)
+//@   ensures [C13,C15] #empty forall k uint64 :: !smHas(sm, k)
+//@   ensures [C15] #expiry forall b int64 :: !gcHas(sm.expiryMap.buckets, b)
+
+//@ func (p *Metrics) Clear()
+//@   noframe
+//@   requires p == nil || wfMetrics(p)
+//@   modifies gcMtot[*]
+//@   loop 1 modifies nothing
+//@   loop 2 modifies nothing
+//@   loop 1 invariant 0 <= i && i <= doNotUse
+//@   assumes [C15,C17] p != nil ==> forall u metricType :: mtot(p, u) == 0
+
+//@ func (c *Cache) Clear()
+//@   noframe
+//@   requires c == nil || (applierOK(c) && c.onEvict != nil && c.stop != nil && !gcClosed(c.stop))
+//@   modifies allmaps(cacheSM(c).shards[0].data), cacheSM(c).expiryMap.buckets, cacheSM(c).expiryMap.lastCleanedBucketNum, c.cachePolicy.evict.used, c.cachePolicy.evict.keyCosts, c.cachePolicy.admit.incrs, z.GcBloomBits(c.cachePolicy.admit.door)[*], c.cachePolicy.admit.freq.rows[0][*], c.cachePolicy.admit.freq.rows[1][*], c.cachePolicy.admit.freq.rows[2][*], c.cachePolicy.admit.freq.rows[3][*], gcMtot[*], gcChan(c.setBuf), gcChan(c.stop), gcChan(c.done), gcCallbacks(c.onEvict)
+//@   loop 1 modifies gcChan(c.setBuf), gcCallbacks(c.onEvict)
+//@   loop 1 invariant #open !gcClosed(c.setBuf)
+//@   at call close#1 assume [hypothesis] #marker-open !gcClosed(i.wait)
+//@   at call onEvict#1 assert [C04] #drop-new-only i.wait == nil && i.flag != itemUpdate
+//@   ensures [C15] #inert !old(isOpen(c)) ==> gcTail(c.setBuf) == old(gcTail(c.setBuf)) && forall k uint64 :: smHas(cacheSM(c), k) == old(smHas(cacheSM(c), k))
+//@   ensures [C15,C13] #empty old(isOpen(c)) ==> (forall k uint64 :: !smHas(cacheSM(c), k)) && c.cachePolicy.evict.used == 0 && gcCard(c.cachePolicy.evict.keyCosts) == 0 && forall b int64 :: !gcHas(cacheSM(c).expiryMap.buckets, b)
+//@   ensures [C15,C06] #drained old(isOpen(c)) ==> gcHead(c.setBuf) == gcTail(c.setBuf)
+//@   ensures [C15,C17] #metrics old(isOpen(c)) && c.Metrics != nil ==> forall u metricType :: mtot(c.Metrics, u) == 0
+//@   ensures [C15] #handshake old(isOpen(c)) ==> gcTail(c.stop) == old(gcTail(c.stop))+1
+//@   ensures [C15] #stop-open gcClosed(c.stop) == old(gcClosed(c.stop)) && gcClosed(c.setBuf) == old(gcClosed(c.setBuf))
+
+//@ func (p *defaultPolicy) Close()
+//@   noframe
+//@   requires p != nil && (p.isClosed || (p.stop != nil && p.done != nil && p.itemsCh != nil && !gcClosed(p.stop) && !gcClosed(p.done) && !gcClosed(p.itemsCh) && p.stop != p.done))
+//@   modifies p.isClosed, gcChan(p.stop), gcChan(p.done), gcChan(p.itemsCh)
+//@   at call close#2 assume [hypothesis] #only-close-closes-done !gcClosed(p.done)
+//@   at call close#3 assume [hypothesis] #only-close-closes-items !gcClosed(p.itemsCh)
+//@   ensures [C15] p.isClosed && (!old(p.isClosed) ==> gcClosed(p.stop) && gcClosed(p.done) && gcClosed(p.itemsCh))
+
+// One shard of IterValues: under the shard's read lock, only live entries reach the callback.
+//@ func (sm *shardedMap) IterValues$1() bool
+//@   atomic
+//@   lockof shard
+//@   noframe
+//@   requires shard != nil && cb != nil
+//@   loop 1 modifies gcCallbacks(cb)
+//@   at call cb#1 assert [C07] #live entryLive(item, gcNow())
+//@   at call cb#1 assert [C13] #resident gcHas(shard.data, item.key) && sameEntry(shard.data[item.key], item)
+
+//@ func (sm *shardedMap) IterValues(cb func(v V) (stop bool))
+//@   noframe
+//@   requires wfSharded(sm) && cb != nil
+//@   modifies gcCallbacks(cb)
+//@   loop 1 modifies gcCallbacks(cb)
+
+//@ func (c *Cache) IterValues(cb func(v V) (stop bool))
+//@   requires c == nil || (wfCache(c) && cb != nil)
+//@   modifies gcCallbacks(cb)
+//@   ensures [C15] #inert !isOpen(c) ==> gcCalls(cb) == old(gcCalls(cb))
+
+//@ func (c *Cache) Close()
+//@   noframe
+//@   requires c == nil || (applierOK(c) && c.onEvict != nil && !gcClosed(c.stop) && c.cachePolicy.stop != nil && c.cachePolicy.done != nil && c.cachePolicy.itemsCh != nil && (c.cachePolicy.isClosed || (!gcClosed(c.cachePolicy.stop) && !gcClosed(c.cachePolicy.done) && !gcClosed(c.cachePolicy.itemsCh) && c.cachePolicy.stop != c.cachePolicy.done)))
+//@   modifies allmaps(cacheSM(c).shards[0].data), cacheSM(c).expiryMap.buckets, cacheSM(c).expiryMap.lastCleanedBucketNum, c.cachePolicy.evict.used, c.cachePolicy.evict.keyCosts, c.cachePolicy.admit.incrs, z.GcBloomBits(c.cachePolicy.admit.door)[*], c.cachePolicy.admit.freq.rows[0][*], c.cachePolicy.admit.freq.rows[1][*], c.cachePolicy.admit.freq.rows[2][*], c.cachePolicy.admit.freq.rows[3][*], gcMtot[*], gcChan(c.setBuf), gcChan(c.stop), gcChan(c.done), gcCallbacks(c.onEvict), c.isClosed, c.cachePolicy.isClosed, gcChan(c.cachePolicy.stop), gcChan(c.cachePolicy.done), gcChan(c.cachePolicy.itemsCh)
+//@   at call close#1 assume [hypothesis] #only-close-closes-stop !gcClosed(c.stop) && c.stop != c.cachePolicy.stop && c.stop != c.cachePolicy.done && c.done != c.cachePolicy.stop && c.done != c.cachePolicy.done
+//@   at call close#2 assume [hypothesis] #only-close-closes-done !gcClosed(c.done)
+//@   ensures [C15] #inert !old(isOpen(c)) ==> gcTail(c.setBuf) == old(gcTail(c.setBuf)) && gcTail(c.stop) == old(gcTail(c.stop)) && forall k uint64 :: smHas(cacheSM(c), k) == old(smHas(cacheSM(c), k))
+//@   ensures [C15] #closed old(isOpen(c)) ==> !isOpen(c) && gcClosed(c.setBuf) && gcClosed(c.stop) && gcClosed(c.done) && c.cachePolicy.isClosed
+//@   ensures [C15,C13] #released old(isOpen(c)) ==> (forall k uint64 :: !smHas(cacheSM(c), k)) && c.cachePolicy.evict.used == 0 && gcCard(c.cachePolicy.evict.keyCosts) == 0
+//@   ensures [C15] #stopped old(isOpen(c)) ==> gcTail(c.stop) == old(gcTail(c.stop))+2 && gcTail(c.cachePolicy.stop) >= old(gcTail(c.cachePolicy.stop))
+
+//@ func (c *Cache) UpdateMaxCost(maxCost int64)
+//@   requires c == nil || c.cachePolicy == nil || true
